@@ -74,6 +74,28 @@ pub fn check_identity(segs: &[&'static str], codes: &[u8]) {
         assert!(out.len() == segs.len());
         let mut i = 0;
         while i < segs.len() { assert!(out[i] == segs[i]); i += 1; }
+        // the rebuilt path text: `/` + the segments joined by `/` (`/` alone for no segment)
+        let want = if segs.is_empty() { "/".to_owned() } else { format!("/{}", segs.join("/")) };
+        assert!(pb.build() == want);
+    }
+}
+/// (c) the same at the level of the path text, through `localize_path` (splitting, choice among several routes):
+/// a path -- written with a trailing or a doubled slash or neither -- localized against the *same* table of two
+/// routes is `/` + its segments joined by `/`; a path that matches no route is reported as such (None).
+pub fn check_localize_text(segs: &[&'static str], codes: &[u8], style: u8) {
+    let cut = codes.len() / 2;
+    let table: Vec<Vec<PathSegment>> = vec![codes[..cut].iter().map(|c| route_seg(*c)).collect(),
+                                             codes[cut..].iter().map(|c| route_seg(*c)).collect()];
+    let mut text = String::new();
+    for s in segs { text.push('/'); if style == 2 { text.push('/'); } text.push_str(s); }
+    if style == 1 || segs.is_empty() { text.push('/'); }
+    let matches_some = table.iter().any(|r| match_path_segments(segs, r).is_some());
+    let mut pb = PathBuilder::new();
+    let r = localize_path(&text, &table, &table, &mut pb);
+    assert!(r.is_some() == matches_some);
+    if r.is_some() {
+        let want = if segs.is_empty() { "/".to_owned() } else { format!("/{}", segs.join("/")) };
+        assert!(pb.build() == want);
     }
 }
 pub fn check_round_trip(segs: &[&'static str], codes: &[u8]) {
@@ -112,7 +134,9 @@ mod native {
         let codes = codes.to_vec();
         let check = check.to_owned();
         let r = panic::catch_unwind(move || {
-            if check == "identity_rewrite" { check_identity(&segs, &codes) } else { check_round_trip(&segs, &codes) }
+            if check == "identity_rewrite" { check_identity(&segs, &codes) }
+            else if check == "there_and_back" { check_round_trip(&segs, &codes) }
+            else { let k = codes.len() - 1; check_localize_text(&segs, &codes[..k], codes[k]) }
         });
         r.map_err(|e| e.downcast_ref::<String>().cloned()
             .or_else(|| e.downcast_ref::<&str>().map(|s| s.to_string())).unwrap_or_default())
@@ -141,7 +165,7 @@ mod native {
         let max_n: usize = std::env::var("C14SEG_MAX_N").ok().and_then(|v| v.parse().ok()).unwrap_or(3);
         let max_m: usize = std::env::var("C14SEG_MAX_M").ok().and_then(|v| v.parse().ok()).unwrap_or(3);
         let mut failed = false;
-        for check in ["identity_rewrite", "there_and_back"] {
+        for check in ["identity_rewrite", "there_and_back", "localize_text"] {
             let mut cases = 0u64;
             let mut first: Option<(Vec<usize>, Vec<u8>, String)> = None;
             for n in 0..=max_n { for m in 0..=max_m {
@@ -149,9 +173,19 @@ mod native {
                 loop {
                     let mut codes = vec![0u8; m];
                     loop {
+                        if check == "localize_text" {
+                            for style in 0..3u8 {
+                                cases += 1;
+                                let mut c2 = codes.clone(); c2.push(style);
+                                if first.is_none() {
+                                    if let Err(msg) = run_case(check, &sidx, &c2) { first = Some((sidx.clone(), c2, msg)); }
+                                }
+                            }
+                        } else {
                         cases += 1;
                         if first.is_none() {
                             if let Err(msg) = run_case(check, &sidx, &codes) { first = Some((sidx.clone(), codes.clone(), msg)); }
+                        }
                         }
                         let mut k = 0; while k < m { codes[k] += 1; if codes[k] < ROUTE_CODES { break; } codes[k] = 0; k += 1; }
                         if k == m { break; }
